@@ -136,7 +136,8 @@ class ConformalElectionModel(BaseElectionModel.BaseElectionModel, ABC):
         upper_bound = (1 + alpha) / 2
         lower_bound = (1 - alpha) / 2
 
-        train_rows = math.floor(self.n_train * conf_frac)
+        # at (and just above) the minimum number of reporting units conf_frac rounds down to zero training rows
+        train_rows = max(math.floor(self.n_train * conf_frac), 1)
         train_data = reporting_units_shuffled[:train_rows]
 
         # the fixed effects in train_data will be a subset of the fixed effect of reporting_units since all
